@@ -769,6 +769,10 @@ pub fn purity(ctx: &GenCtx, rng: &mut Rng, run: u64) -> Plan {
                     plan.ops.push(Op::Inject { key: k, counter: rng.below(leaves) });
                 }
                 let api = *rng.pick(&[Api::Fn, Api::Obj]);
+                if rng.chance(1, 5) {
+                    // a failed attempt (storage refused the update) right before the observed call
+                    plan.ops.push(Op::Sign { proc: k, msg: msg(rng, plan.keys[k].hash.n()), api: Api::Fn, cb: *rng.pick(&[Cb::Reject, Cb::Reject, Cb::CrashBeforeDurable]), aux: None });
+                }
                 observed.push(plan.ops.len());
                 plan.ops.push(Op::Sign { proc: k, msg: msg(rng, plan.keys[k].hash.n()), api, cb: Cb::Accept, aux: None });
             }
@@ -835,6 +839,9 @@ pub fn purity_proc(ctx: &GenCtx, rng: &mut Rng, _run: u64) -> Plan {
         let leaves = 1u64 << plan.keys[k].params.iter().map(|p| p.1).sum::<u32>();
         if i % 3 == 0 {
             plan.ops.push(Op::Inject { key: k, counter: rng.below(leaves) });
+        }
+        if rng.chance(1, 12) {
+            plan.ops.push(Op::Sign { proc: k, msg: Msg { len: rng.below(40) as usize, cseed: rng.next_u64() }, api: Api::Fn, cb: Cb::Reject, aux: None });
         }
         observed.push(plan.ops.len());
         plan.ops.push(Op::Sign { proc: k, msg: Msg { len: rng.below(40) as usize, cseed: rng.next_u64() }, api: *rng.pick(&[Api::Fn, Api::Obj]), cb: Cb::Accept, aux: None });
